@@ -70,6 +70,15 @@ pub fn run(ctx: &Ctx, rep: &mut Report) {
                 sys.entries.push(Entry::simple(k, rng.range(0, nid - 1) as i16, rng.range(0, nid - 1) as i16, rng.range(0, 4000) as i16, rng.pick(&pool)));
             }
         }
+        // numerals whose normalised form already is the decimal value (nothing to rewrite for them)
+        for (key, norm) in [("一", "1"), ("二十", "20"), ("七", "7")] {
+            if rng.chance(1, 2) {
+                let mut e = Entry::simple(key, rng.range(0, nid - 1) as i16, rng.range(0, nid - 1) as i16, rng.range(-500, 1500) as i16, &pool[1]);
+                e.norm = norm.to_string();
+                e.synonyms = vec![77];
+                sys.entries.push(e);
+            }
+        }
         // katakana words whose headword has another byte length than the index key
         for (key, head) in [("コン", "コーン"), ("マウ", "マ"), ("ピュ", "ピュー")] {
             if rng.chance(1, 2) {
@@ -194,7 +203,7 @@ pub fn run(ctx: &Ctx, rep: &mut Report) {
                     if let Some(diff) = same_token(w, b) {
                         // degenerate merge: a single numeral token whose normalised form is rewritten
                         let numeral = b.pos == pool[1].to_vec();
-                        let allowed = enable_normalize && numeral && w.pos == b.pos && w.reading == b.reading && w.wi_surface == b.wi_surface && w.dict_form == b.dict_form;
+                        let allowed = enable_normalize && numeral && w.norm != b.norm && w.pos == b.pos && w.reading == b.reading && w.wi_surface == b.wi_surface && w.dict_form == b.dict_form;
                         if !allowed {
                             rep.violation("unmerged_token_changed", "path rewrite", &format!("token {:?} is not part of a merge but its {} differs (pos {:?} -> {:?}, normalised {:?} -> {:?})", w.surface, diff, b.pos.join(","), w.pos.join(","), b.norm, w.norm), "", scen());
                             failed = true;
